@@ -405,3 +405,27 @@ def validate_traces(rep, module, cfg, trace_path, name=None, tr_field="tr", max_
         if len(rejected) > max_reject:
             break
     return rejected
+
+
+def ingester_protocol(rep, prop, thorough):
+    """Ingester.tla: the Transform / ingester / FormatReader call protocol.  TLC explores the protocol state space, then
+    validates the call sequences recorded by a recording FormatReader wrapped around every built-in reader."""
+    r = tlc("MC_Ingester", "MC_Ingester.cfg", consts={"MaxNodes": "4" if thorough else "3"}, timeout=1200)
+    rep.add_tlc("MC_Ingester", r)
+    if not tlc_ok(r, "MC_Ingester"):
+        raise Inconclusive("Ingester.tla violates its own invariant %s: specification problem" % r.violated)
+    tr = os.path.join(scratch(), "ing.trace.ndjson")
+    recs, _ = run_vh(["ing-drive", tr, "6" if thorough else "2"], timeout=3000)
+    for x in recs:
+        if x.get("kind") == "violation":
+            rep.violation(dict(x, property=prop))
+        elif x.get("kind") == "summary":
+            rep.add_summary(x)
+    for rj in validate_traces(rep, "Trace_Ingester", "Trace_Ingester.cfg", tr, timeout=3000):
+        ev = rj["failing_event"]
+        start = rj["events"][0]
+        ctx = [{k: v for k, v in e.items() if k != "tr"} for e in rj["events"][max(0, rj["failing_index"] - 6): rj["failing_index"] + 1]]
+        rep.violation({"property": prop, "key": "ingester-protocol:%s:%s" % (start.get("sample"), ev.get("ev")), "kind": "b2",
+                       "summary": "%s (variant %s): the call sequence between Transform, ingester and FormatReader leaves Ingester.tla at %s (%s); "
+                                  "last calls: %s" % (start.get("sample"), start.get("variant"), ev, rj["tlc"], ctx),
+                       "sample": start.get("sample"), "calls": ctx})
